@@ -149,6 +149,76 @@ Proof.
 Qed.
 Print Assumptions C20_instance_Qc.
 
+(* ================= NonlinearForm._assemble: Jacobian / residual COO bookkeeping =================
+   gen_pieces (slice bounds, row/column sources, data slot, test/direction indices, flatten shape, sign) is
+   regenerated from skfem/autodiff/__init__.py.  F = per-cell field data, g e U V = integrated integrand on
+   cell e, D = what jax.linearize returns (a PARAMETER: JAX is trusted, not modelled — partial). *)
+Require Import Model.C20_Nonlin Proofs.C20_NonlinProofs Gen.C20Gen_nl Dyn.C20_NonlinTie.
+
+(* for all sizes, dof tables, integrands and oracles: position nt*(Nb*j+i)+e of the Jacobian triplets holds
+   row = dof of TEST function i, column = dof of TRIAL function j, value = D(U |-> g e U phi_i)(X_e)[phi_j];
+   position nt*i+e of the residual triplets holds (dof of test i, - g e X_e phi_i) *)
+Theorem C20_nonlinear_bookkeeping :
+  forall (R : Type) (ops : FOps R) (F : Type) (Nb nt : nat) (edofs : nat -> nat -> nat) (phi : nat -> nat -> F)
+         (X : nat -> F) (g : nat -> F -> F -> R) (D : (F -> R) -> F -> F -> R) (j i e : nat),
+    j < Nb -> i < Nb -> e < nt ->
+    (nt * (Nb * j + i) + e < gen_jac_len Nb nt /\
+     jac_rows F gen_pieces Nb nt edofs phi X g D (nt * (Nb * j + i) + e) = edofs i e /\
+     jac_cols F gen_pieces Nb nt edofs phi X g D (nt * (Nb * j + i) + e) = edofs j e /\
+     jac_data F gen_pieces Nb nt edofs phi X g D (nt * (Nb * j + i) + e) = D (fun U => g e U (phi i e)) (X e) (phi j e)) /\
+    (nt * i + e < gen_rhs_len Nb nt /\
+     rhs_rows F gen_pieces Nb nt edofs phi X g D (nt * i + e) = edofs i e /\
+     rhs_data F gen_pieces Nb nt edofs phi X g D (nt * i + e) = (- g e (X e) (phi i e))%F).
+Proof.
+  intros R ops F Nb nt edofs phi X g D j i e Hj Hi He. rewrite gen_pieces_is_std.
+  split; [exact (nl_jacobian_entries F Nb nt edofs phi X g D j i e Hj Hi He)
+         | exact (nl_residual_entries F Nb nt edofs phi X g D i e Hi He)].
+Qed.
+Print Assumptions C20_nonlinear_bookkeeping.
+
+(* integrand linear in the unknown: g e U V = a e U V - l e V with a additive and homogeneous in U, x interpolated by
+   basis.interpolate, every dof < N, and an oracle D that is exact on such functions  ==>  the assembled pair is
+   (A, b - A x) with A, b the ordinary assembly of a and l *)
+Theorem C20_linear_reduces :
+  forall (R : Type) (ops : FOps R), is_ring R ops ->
+  forall (F : Type) (fzero : F) (fplus : F -> F -> F) (fscale : R -> F -> F) (Nb nt N : nat)
+         (edofs : nat -> nat -> nat) (phi : nat -> nat -> F) (a : nat -> F -> F -> R) (l : nat -> F -> R)
+         (x : nat -> R) (D : (F -> R) -> F -> F -> R),
+    (forall e U W V, a e (fplus U W) V = (a e U V + a e W V)%F) ->
+    (forall e c U V, a e (fscale c U) V = (c * a e U V)%F) ->
+    (forall e V, a e fzero V = 0%F) ->
+    (forall (h : F -> R) (k : R) (X0 W : F),
+        (forall U V, h (fplus U V) = (h U + h V)%F) -> (forall c U, h (fscale c U) = (c * h U)%F) ->
+        D (fun U => (h U - k)%F) X0 W = h W) ->
+    (forall j e, j < Nb -> e < nt -> edofs j e < N) ->
+    let g := fun e U V => (a e U V - l e V)%F in
+    let X := interp F fzero fplus fscale Nb edofs phi x in
+    (forall r c, dense_mat (gen_jac_len Nb nt) (jac_rows F gen_pieces Nb nt edofs phi X g D)
+                           (jac_cols F gen_pieces Nb nt edofs phi X g D) (jac_data F gen_pieces Nb nt edofs phi X g D) r c
+                 = asm_mat F Nb nt edofs phi a r c) /\
+    (forall r, dense_vec (gen_rhs_len Nb nt) (rhs_rows F gen_pieces Nb nt edofs phi X g D)
+                         (rhs_data F gen_pieces Nb nt edofs phi X g D) r
+               = (asm_vec F Nb nt edofs phi l r - matvec N (asm_mat F Nb nt edofs phi a) x r)%F).
+Proof.
+  intros R ops H F fzero fplus fscale Nb nt N edofs phi a l x D Ha Hh Hz HD Hb g X. rewrite gen_pieces_is_std.
+  exact (linear_reduces H F fzero fplus fscale Nb nt N edofs phi a l x D Ha Hh Hz HD Hb).
+Qed.
+Print Assumptions C20_linear_reduces.
+
+(* non-vacuity of C20_linear_reduces: F = Qc, the symmetric difference quotient is an oracle that is exact on affine
+   functions, a e U V = (e+2) U V *)
+Example C20_linear_reduces_instance :
+  let D := fun (h : Qc -> Qc) (X0 W : Qc) => ((h (X0 + W) - h (X0 - W)) / (1 + 1))%F in
+  forall (h : Qc -> Qc) (k X0 W : Qc),
+    (forall U V, h (U + V)%F = (h U + h V)%F) -> (forall c U, h (c * U)%F = (c * h U)%F) ->
+    D (fun U => (h U - k)%F) X0 W = h W.
+Proof.
+  intros D h k X0 W Hadd Hhom. unfold D.
+  assert (E : (X0 + W)%F = ((X0 - W) + (1 + 1) * W)%F) by (simpl; ring).
+  rewrite E, Hadd, Hhom. simpl. field. discriminate.
+Qed.
+Print Assumptions C20_linear_reduces_instance.
+
 (* ---- the JAX 3x3 determinant (own file: the only place defect F5 shows) *)
 (* marker: a failure of the next Require (Dyn.C20_JaxDet does not compile) is attributed to this item *)
 Example C20_requires_Dyn_C20_JaxDet : True.
@@ -160,3 +230,4 @@ Theorem C20_jax_det3_is_leibniz : forall R ops, is_ring R ops -> forall A : mat 
   jx_det_3 A = leibniz 3 A /\ np_det_3 A = jx_det_3 A.
 Proof. intros R ops H A. exact (conj (jx_det_3_leibniz H A) (det3_variants_agree H A)). Qed.
 Print Assumptions C20_jax_det3_is_leibniz.
+
